@@ -557,14 +557,19 @@ sp_cgemv(char *trans, complex alpha, SuperMatrix *A, complex *x,
 	    SUPERLU_ABORT("Not implemented.");
 	}
     } else {
-	/* Form  y := alpha*A'*x + y. */
+	/* Form  y := alpha*A'*x + y  or  y := alpha*conj(A')*x + y. */
 	jy = ky;
 	if (incx == 1) {
 	    for (j = 0; j < A->ncol; ++j) {
 		temp = comp_zero;
 		for (i = Astore->colptr[j]; i < Astore->colptr[j+1]; ++i) {
 		    irow = Astore->rowind[i];
-		    cc_mult(&temp1, &Aval[i], &x[irow]);
+		    if ( lsame_(trans, "C") ) { /* y := alpha*conj(A')*x + y */
+			cc_conj(&temp1, &Aval[i]);
+			cc_mult(&temp1, &temp1, &x[irow]);
+		    } else {
+			cc_mult(&temp1, &Aval[i], &x[irow]);
+		    }
 		    c_add(&temp, &temp, &temp1);
 		}
 		cc_mult(&temp1, &alpha, &temp);
